@@ -315,56 +315,117 @@ def lookupVar {S} (g : Graph S) (vv : VarVals) (mid : Nat) (x : String) : List E
     | some e => some e.2
     | none => ((g.globals.zip vv.globals).reverse.find? fun e => x = e.1).map (·.2)
 
-def mdefEntries (mid k : Nat) : List Entry := (List.range (k + 1)).reverse.map (Entry.mdef mid)
+/-- `[mdef mid (k-1), …, mdef mid 0]`: the first `k` definitions of module `mid`, latest first -/
+def mdefsBelow (mid : Nat) : Nat → List Entry
+  | 0 => []
+  | k + 1 => Entry.mdef mid k :: mdefsBelow mid k
+
+/-- what definition `k` of module `mid` sees of its own module: itself and the earlier ones -/
+def mdefEntries (mid k : Nat) : List Entry := mdefsBelow mid (k + 1)
+
+def defsOf {S} (g : Graph S) (mid : Nat) : List Def := (g.mods[mid]?.map (·.body.defs)).getD []
+
+def modDef {S} (g : Graph S) (mid k : Nat) : Option Def := g.mods[mid]?.bind fun mo => mo.body.defs[k]?
+
+def headerOf {S} (g : Graph S) (mid : Nat) : List (Nat × Option String) := (g.mods[mid]?.map (·.mods)).getD []
+
+/-- what a call refers to -/
+inductive Target where
+  | clo (t : Tm) (env : List Entry) (mid : Nat)        -- filter argument: run `t` where it was written
+  | fn (d : Def) (env : List Entry) (mid : Nat)        -- definition: bind the parameters on top of `env`, run the body in module `mid`
+  | builtin (json : String)
+  | oob
+  | undef
+
+/-- unqualified call among the local entries (parameters, nested definitions, the module's own
+    earlier definitions and the definition itself) -/
+def findFn {S} (g : Graph S) (f : String) (n : Nat) : List Entry → Option Target
+  | [] => none
+  | .clo f' t' cenv cmid :: r => if f' = f ∧ n = 0 then some (.clo t' cenv cmid) else findFn g f n r
+  | .ldef d denv dmid :: r =>
+    if d.name = f ∧ d.params.length = n then some (.fn d (.ldef d denv dmid :: denv) dmid) else findFn g f n r
+  | .mdef m k :: r =>
+    match modDef g m k with
+    | some d => if d.name = f ∧ d.params.length = n then some (.fn d (mdefEntries m k) m) else findFn g f n r
+    | none => findFn g f n r
+  | .val _ _ :: r => findFn g f n r
+  | .lbl _ :: r => findFn g f n r
+
+def lookupTarget {S} (g : Graph S) : Lookup → Target
+  | .found im k => match modDef g im k with | some d => .fn d (mdefEntries im k) im | none => .oob
+  | .oob => .oob
+  | _ => .undef
+
+/-- Resolution order of unqualified calls: local entries, included modules latest first (the
+    `included_mods` loop), natives. -/
+def resolveCall {S} (g : Graph S) (mid : Nat) (env : List Entry) (f : String) (n : Nat) : Target :=
+  match findFn g f n env with
+  | some t => t
+  | none =>
+    match callIncluded g.modMap (includedOf (headerOf g mid)) f n with
+    | .found im k => lookupTarget g (.found im k)
+    | _ => match builtin? f n with
+      | some j => .builtin j
+      | none => .undef
+
+/-- qualified call: the last import of that name, then only that module -/
+def resolveQCall {S} (g : Graph S) (mid : Nat) (m f : String) (n : Nat) : Target :=
+  lookupTarget g (callMod g.modMap (importedOf (headerOf g mid)) m f n)
+
+/-- arguments are bound left to right on top of `acc`: `$`-parameters are evaluated at the call
+    site, filter parameters become closures over the call site -/
+def bindArgs (ev : Tm → Except String V) (env : List Entry) (mid : Nat) :
+    List Param → List Tm → List Entry → Except String (List Entry)
+  | .var x :: ps, a :: as, acc =>
+    match ev a with
+    | .ok v => bindArgs ev env mid ps as (Entry.val x v :: acc)
+    | .error e => .error e
+  | .fn f :: ps, a :: as, acc => bindArgs ev env mid ps as (Entry.clo f a env mid :: acc)
+  | _, _, acc => .ok acc
+
+def evalList (ev : Tm → Except String V) : List Tm → Except String (List V)
+  | [] => .ok []
+  | t :: ts =>
+    match ev t with
+    | .ok v => match evalList ev ts with
+      | .ok vs => .ok (v :: vs)
+      | .error e => .error e
+    | .error e => .error e
+
+/-- `def …; def …; body`: each definition sees the earlier ones (and itself, see `findFn`) -/
+def pushDefs (mid : Nat) (env : List Entry) (ds : List Def) : List Entry :=
+  ds.foldl (fun e d => Entry.ldef d e mid :: e) env
+
+/-- run what a call refers to; `ev` = the evaluator with less fuel -/
+def runTarget (ev : Nat → List Entry → Tm → Except String V) (env : List Entry) (mid : Nat)
+    (tg : Target) (args : List Tm) (what : String) : Except String V :=
+  match tg with
+  | .clo t' cenv cmid => ev cmid cenv t'
+  | .fn d denv dmid =>
+    match bindArgs (ev mid env) env mid d.params args denv with
+    | .ok env' => ev dmid env' d.body
+    | .error e => .error e
+  | .builtin j => .ok (.raw j)
+  | .oob => .error "oob"
+  | .undef => .error ("undefined " ++ what)
 
 /-- Big-step evaluation on input `null`; every probe term has exactly one output.
-    `env` head = innermost.  Resolution order of calls: local entries (parameters, nested
-    definitions, own earlier module definitions and itself), included modules latest first,
-    builtins; qualified: last import of that name. -/
+    `env` head = innermost, `mid` = the module whose text is being run. -/
 def eval {S} (g : Graph S) (vv : VarVals) : Nat → Nat → List Entry → Tm → Except String V
   | 0, _, _, _ => .error "fuel"
   | fuel + 1, mid, env, t =>
-    let callDef (dmid : Nat) (denv : List Entry) (d : Def) (args : List Tm) : Except String V := do
-      let ps ← (d.params.zip args).mapM fun (p, a) =>
-        match p with
-        | .var x => do let v ← eval g vv fuel mid env a; pure (Entry.val x v)
-        | .fn f => pure (Entry.clo f a env mid)
-      eval g vv fuel dmid (ps.reverse ++ denv) d.body
-    let callModDef (m k : Nat) (args : List Tm) : Except String V :=
-      match (g.mods[m]?.bind fun mo => mo.body.defs[k]?) with
-      | some d => callDef m (mdefEntries m k) d args
-      | none => .error "oob"
     match t with
     | .tag s => .ok (.tag s)
     | .var x => match lookupVar g vv mid x env with | some v => .ok v | none => .error ("undefined $" ++ x)
-    | .arr ts => do let vs ← ts.mapM (eval g vv fuel mid env); pure (.arr vs)
-    | .bind v x b => do let a ← eval g vv fuel mid env v; eval g vv fuel mid (.val x a :: env) b
+    | .arr ts => match evalList (eval g vv fuel mid env) ts with | .ok vs => .ok (.arr vs) | .error e => .error e
+    | .bind v x b =>
+      match eval g vv fuel mid env v with
+      | .ok a => eval g vv fuel mid (.val x a :: env) b
+      | .error e => .error e
     | .lbl l b => eval g vv fuel mid (.lbl l :: env) b
-    | .defs ds b => eval g vv fuel mid (ds.foldl (fun e d => Entry.ldef d e mid :: e) env) b
-    | .qcall m f args =>
-      match callMod g.modMap (importedOf (g.mods[mid]?.map (·.mods) |>.getD [])) m f args.length with
-      | .found im k => callModDef im k args
-      | _ => .error ("undefined " ++ m ++ "::" ++ f)
-    | .call f args =>
-      let n := args.length
-      let rec go : List Entry → Option (Except String V)
-        | [] => none
-        | .clo f' t' cenv cmid :: r => if f' = f ∧ n = 0 then some (eval g vv fuel cmid cenv t') else go r
-        | .ldef d denv dmid :: r =>
-          if d.name = f ∧ d.params.length = n then some (callDef dmid (.ldef d denv dmid :: denv) d args) else go r
-        | .mdef m k :: r =>
-          match (g.mods[m]?.bind fun mo => mo.body.defs[k]?) with
-          | some d => if d.name = f ∧ d.params.length = n then some (callModDef m k args) else go r
-          | none => go r
-        | _ :: r => go r
-      match go env with
-      | some r => r
-      | none =>
-        match callIncluded g.modMap (includedOf (g.mods[mid]?.map (·.mods) |>.getD [])) f n with
-        | .found im k => callModDef im k args
-        | _ => match builtin? f n with
-          | some j => .ok (.raw j)
-          | none => .error ("undefined " ++ f)
+    | .defs ds b => eval g vv fuel mid (pushDefs mid env ds) b
+    | .qcall m f args => runTarget (eval g vv fuel) env mid (resolveQCall g mid m f args.length) args (m ++ "::" ++ f)
+    | .call f args => runTarget (eval g vv fuel) env mid (resolveCall g mid env f args.length) args f
 
 def evalFuel : Nat := 4000
 
@@ -375,7 +436,7 @@ def runGraph {S} (g : Graph S) (vv : VarVals) : Except String V :=
   | some m =>
     match m.body.main with
     | none => .error "no main"
-    | some t => eval g vv evalFuel g.cur (mdefEntries g.cur (m.body.defs.length - 1) |>.drop (if m.body.defs.isEmpty then 1 else 0)) t
+    | some t => eval g vv evalFuel g.cur (mdefsBelow g.cur m.body.defs.length) t
 
 /-! ## Part 3: the inlined program -/
 
